@@ -586,27 +586,55 @@ def run_scripts(chk, area, c_exe, m_exe, scripts, oracle=None, batch=4000):
 
 def minimise(area, c_exe, m_exe, script, enabled=None):
     """shrink a script on which implementation and model differ: cut after the
-    first differing line, then drop single operations while the difference
-    stays and the script stays inside the documented domain."""
-    def differs(sc):
-        c, m = run_pair(c_exe, m_exe, [sc], jobs=1)
-        return first_diff(c[0], m[0])
-    i = differs(script)
+    first differing line, then delta-debugging (drop chunks of halving size,
+    all candidates of one granularity in one parallel batch) while the
+    difference stays and the script stays inside the documented domain."""
+    def differs_many(cands):
+        if not cands:
+            return []
+        c, m = run_pair(c_exe, m_exe, cands, jobs=min(16, len(cands)))
+        return [first_diff(a, b) for a, b in zip(c, m)]
+    i = differs_many([script])[0]
     if i is None:
         return script
     cur = script[:i + 1]
-    changed = True
-    while changed and len(cur) > 1:
-        changed = False
-        for k in range(len(cur) - 1, -1, -1):
-            cand = cur[:k] + cur[k + 1:]
-            if enabled is not None and not enabled(cand):
-                continue
-            if cand and differs(cand) is not None:
-                cur = cand
-                changed = True
+    chunk = max(1, len(cur) // 2)
+    rounds = 0
+    while len(cur) > 1 and rounds < 400:
+        rounds += 1
+        cands = []
+        for k in range(0, len(cur), chunk):
+            cand = cur[:k] + cur[k + chunk:]
+            if cand and (enabled is None or enabled(cand)):
+                cands.append(cand)
+        res = differs_many(cands[:256])
+        hit = None
+        for cand, r in zip(cands, res):
+            if r is not None:
+                hit = cand[:r + 1]
                 break
+        if hit is not None:
+            cur = hit
+            chunk = max(1, min(chunk, len(cur) // 2))
+        elif chunk == 1:
+            break
+        else:
+            chunk = max(1, chunk // 2)
     return cur
+
+
+def extend_search(chk, area, c_exe, m_exe, prefix, continuation, oracle, count=1500, enabled=None):
+    """directed search after a model/implementation difference: the minimised
+    script reaches a state in which the two disagree; continue from it with
+    `count` random continuations (continuation(rng) -> op list) and let the
+    independent oracle judge the real code's output."""
+    scripts = []
+    for _ in range(count):
+        sc = list(prefix) + continuation(chk.rng)
+        if enabled is None or enabled(sc):
+            scripts.append(sc)
+    chk.notes.append("directed search: %d random continuations of the minimised difference (%d ops)" % (len(scripts), len(prefix)))
+    run_scripts(chk, area, c_exe, m_exe, scripts, oracle)
 
 
 # ---------------------------------------------------------------------------
